@@ -46,7 +46,9 @@ META = {
 # finite limit; what a trip means is decided by Sub.hang (set to "violation" by the maintainers of the runner).
 STEP_LIMIT = 2_000_000
 
-KS = [None, 2, 1, 5, None, None]
+# max_solutions: None, small constants, the boundary 0, a large value, and values relative to the true number of covers m
+# (computed by the reference before solvOR is called): "m", "m-1", "m+1".
+KS = [None, 2, 1, 0, "m", None, 5, "m-1", "m+1", 1000, None]
 MAX_ITERS = ["default", "abs", "exact", "minus", "default", "default", "default", "abs"]
 EXTRA_OPS = ["split", "split", "merge", "dup", "noise", "noise", "sub", "empty", "seconly"]
 POST_OPS = ["empty_row", "dup_row", "empty_col"]
@@ -149,6 +151,22 @@ def _sectrap(draw):
     return ncols, rows, sorted(idx[n] for n in names if n.startswith("S"))
 
 
+def _sec_arg(draw, ncols, sec):
+    """The `secondary=` argument as a list of column indices: the secondary columns in some order, in a visible share of the
+    cases with repeated entries (solvOR takes set(secondary), so a repeated name is valid and means nothing new) — a few
+    repeats, or padded up to / beyond the number of columns.  None = plain ascending / reversed list (flag sec_rev)."""
+    if not sec:
+        return None
+    mode = draw(st.sampled_from(["plain", "shuffle", "plain", "repeat", "pad", "plain"]))
+    if mode == "plain":
+        return None
+    if mode == "shuffle":
+        return list(draw(st.permutations(sec)))
+    extra = draw(st.integers(1, 2)) if mode == "repeat" else max(1, ncols - len(sec) + draw(st.integers(0, 1)))
+    reps = draw(st.lists(st.sampled_from(sec), min_size=extra, max_size=extra))
+    return list(draw(st.permutations(list(sec) + reps)))
+
+
 def _params(draw, family, ncols, rows, sec):
     return {
         "family": family,
@@ -157,6 +175,7 @@ def _params(draw, family, ncols, rows, sec):
         "sec": sec,
         "scheme": draw(st.sampled_from([2, 0, 1, 3, 4, 0])),
         "sec_rev": draw(st.booleans()),
+        "sec_arg": _sec_arg(draw, ncols, sec),
         "sec_empty_as_list": draw(st.booleans()),
         "containers": draw(st.integers(0, 3)),
         "find_all": draw(st.sampled_from([True, False])),
@@ -332,6 +351,18 @@ def validate(res, *, rows, primary, ncols, ref, find_all, k, small_iter, max_ite
     # 3. completeness / counts
     if not find_all:
         return "single"
+    if k == 0:
+        # max_solutions=0.  Docstring: "Stop after finding this many solutions"; the code tests `if max_solutions and ...`,
+        # so 0 behaves like None.  Accepted readings: (a) "no cut-off" = the observed contract: all covers, OPTIMAL — handled
+        # by falling through to the k-is-None branch; (b) "a limit of zero": an empty LIST with the cut-off status FEASIBLE
+        # (nothing wrong is claimed: covers exist, none were asked for).  Not accepted under any reading: INFEASIBLE or
+        # solution None while covers exist (both already rejected above: "INFEASIBLE is reported exactly when no cover
+        # exists"), or a non-empty proper subset of the covers.
+        if not fs and isinstance(sol, (list, tuple)):
+            if status != Status.FEASIBLE:
+                raise Violation(f"{pre}status:empty-list-for-max_solutions-0-not-feasible", {"status": status.name, "covers": m})
+            return "cut"
+        k = None
     if k is None:
         if set(fs) != ref:
             missing = sorted(sorted(s) for s in ref - set(fs))
@@ -386,7 +417,7 @@ def run(desc, ctx):
         if scheme != 0:
             names = [name_of(scheme, i, ncols) for i in range(ncols)]
             kw["columns"] = tuple(names) if cont == 3 else names
-        order = sec[::-1] if desc["sec_rev"] else sec
+        order = desc.get("sec_arg") or (sec[::-1] if desc["sec_rev"] else sec)
         secnames = [name_of(scheme, j, ncols) for j in order]
         if secnames:
             kw["secondary"] = tuple(secnames) if cont in (1, 3) else secnames
@@ -394,10 +425,21 @@ def run(desc, ctx):
             kw["secondary"] = []
         if desc["find_all"]:
             kw["find_all"] = True
-        if desc["k"] is not None:
-            kw["max_solutions"] = desc["k"]
+        if k is not None:
+            kw["max_solutions"] = k
         return matrix, kw
 
+    # the oracle runs first: "m", "m-1", "m+1" place max_solutions at the true number of covers
+    rows_m, pm, sm = C.masks(rows, primary)
+    ref = reference(rows_m, pm, sm)
+    m = len(ref)
+    k = desc["k"]
+    if isinstance(k, str):
+        k = {"m": m, "m-1": m - 1, "m+1": m + 1}[k]
+        if k < 0:
+            k = 1
+    if desc.get("sec_arg") is not None and set(desc["sec_arg"]) != set(sec):
+        raise Discard()
     matrix, kw = build()
     mi = desc["mi"]
     small = mi != "default"
@@ -415,11 +457,9 @@ def run(desc, ctx):
 
     res = ctx.call(solve_exact_cover, matrix, **kw)
 
-    # oracle + classification of the case
-    rows_m, pm, sm = C.masks(rows, primary)
-    ref = reference(rows_m, pm, sm)
-    m = len(ref)
+    # classification of the case
     el = C.eligible(rows_m, pm)
+    sa = desc.get("sec_arg")
     empty_rows = sum(1 for r in rows_m if r == 0)
     dup = len(set(rows_m)) < nrows
     colsum = [sum(r[j] for r in rows) for j in range(ncols)]
@@ -438,7 +478,10 @@ def run(desc, ctx):
         f"k-{desc['k']}",
         f"max_iter-{mi}",
         "covers-0" if m == 0 else "covers-1" if m == 1 else "covers-2..5" if m <= 5 else "covers-6+",
-        desc["find_all"] and desc["k"] is not None and (m > desc["k"] and "k-cuts" or m == desc["k"] and "k-equals-covers" or m and "k-above-covers"),
+        desc["find_all"] and k == 0 and m and "k-zero-with-covers",
+        desc["find_all"] and k and (m > k and "k-cuts" or m == k and "k-equals-covers" or m and "k-above-covers"),
+        sa is not None and (len(sa) > len(sec) and "secondary-repeated" or "secondary-shuffled"),
+        sa is not None and primary and len(sa) >= ncols and "secondary-list-as-long-as-columns",
         len(el) > 12 and "recursive-reference",
     )
     dead_end = m == 0 and bool(primary) and not empty_prim_col
@@ -451,7 +494,7 @@ def run(desc, ctx):
 
     if not isinstance(res, Result):
         raise Violation("result:not-a-Result", repr(res)[:200])
-    outcome = validate(res, rows=rows, primary=primary, ncols=ncols, ref=ref, find_all=desc["find_all"], k=desc["k"], small_iter=small, max_iter=max_iter)
+    outcome = validate(res, rows=rows, primary=primary, ncols=ncols, ref=ref, find_all=desc["find_all"], k=k, small_iter=small, max_iter=max_iter)
     ctx.label("out-" + outcome, small and outcome != "max-iter" and "small-max_iter-finished")
 
     # input not modified (same values, same container types)
@@ -479,7 +522,7 @@ def zero_cases(tier):
     for nrows in (0, 1, 2):
         for cont in (0, 1):
             for find_all in (False, True):
-                for k in (None, 1, 2):
+                for k in (None, 0, 1, 2):
                     for cols in (None, "empty"):
                         for secs in (None, "empty"):
                             yield {"zero": True, "nrows": nrows, "containers": cont, "find_all": find_all, "k": k, "columns": cols, "secondary": secs}
@@ -515,6 +558,7 @@ def run_zero(desc, ctx):
 # One "case" is a block of up to SMALL_BLOCK consecutive matrices (cell (i,j) = bit i*ncols+j of the code), so that the
 # per-case overhead of the harness is paid once per block; the number of matrices is in the counter "matrices".
 SMALL_BLOCK = 2048
+SMALL_EXTRA_CELLS = 12  # shapes with at most this many cells also get the argument-boundary calls (about 1.1e5 matrices)
 SMALL_STEP_LIMIT = 200_000  # per call; the largest count on /repo for these shapes is below 1 000 events (>= 200x margin)
 SMALL_SHAPES = {
     "quick": [(r, c) for r in range(1, 5) for c in range(1, 5)] + [(5, 2), (6, 2)],  # 1.2e6 matrices
@@ -580,6 +624,18 @@ def run_small(desc, ctx):
             if matrix != rows:
                 raise Violation("small:input-modified", {"matrix": rows, "secondary": sec})
             raise Violation("small:fast-and-slow-path-disagree", {"matrix": rows, "secondary": sec})
+        if r * c <= SMALL_EXTRA_CELLS:
+            # argument boundaries on the smallest shapes: max_solutions 0 and 1, every secondary name listed twice
+            extras = [({"max_solutions": 0}, 0), ({"max_solutions": 1}, 1)]
+            if sec:
+                extras.append(({"secondary": sec + sec[::-1]}, None))
+            for more, kk in extras:
+                kw2 = dict(kw, find_all=True, **more)
+                res = ctx.call(solve_exact_cover, matrix, **kw2)
+                try:
+                    validate(res, rows=rows, primary=primary, ncols=c, ref=ref, find_all=True, k=kk, small_iter=False, max_iter=10_000_000, pre="small:")
+                except Violation as v:
+                    raise Violation(v.bucket, {"matrix": rows, "kwargs": repr(kw2), "why": v.detail})
     ctx.count("matrices", desc["count"])
     ctx.nontrivial(multi > 0)
     ctx.size("matrices_with_2+_covers_in_block", multi)
